@@ -48,6 +48,10 @@ def oracle(ctx, case, steps, ctor_err):
             g = meta.nodes[k].get('graph')
             if g is None or n not in g:
                 ctx.fail(suites.slim(case), f'shared atom {n} is missing from coarse node {k}')
+    # the merged atom belongs to EVERY coarse node that described it: each coarse node still carries a full copy of its
+    # fragment (an atom merged twice must not lose the membership it got from the first merge)
+    from props import c02
+    c02.oracle(ctx, case, steps, None)
 
 
 def hier_oracle(ctx, case, steps, ctor_err):
@@ -134,6 +138,74 @@ def nonlegacy_oracle(ctx, case, steps, ctor_err):
                                     f'({case["nshared"]} shared atoms)')
 
 
+def share_extra_case(rng):
+    """two fragments sharing one atom that ALSO carries ordinary descriptors on both copies (quantifier: "shared atoms that
+    also carry ordinary descriptors"): 'R1-X[!][$]' and 'X[$][!]-R2', further fragments attached through the '$' of either
+    copy.  Every base-graph edge has its dedicated pair; the shared pair is written first on the fragment that comes first."""
+    chains = {'': [], 'O': ['O'], 'N': ['N'], 'CC': ['C', 'C'], 'C': ['C'], 'OC': ['O', 'C']}
+    r1 = rng.choice(['O', 'N', 'CC', 'C'])
+    r2 = rng.choice(['CC', 'C', 'O', 'OC'])
+    subs = ['N', 'F', 'Cl', 'O', 'OC']
+    ea = [rng.choice(subs) for _ in range(rng.randint(0, 1))]
+    eb = [rng.choice(subs) for _ in range(rng.randint(0 if ea else 1, 1))]
+    da = ['[!]'] + ['[$]'] * len(ea)                     # the shared pair first on the first fragment
+    db = ['[!]'] + ['[$]'] * len(eb)
+    rng.shuffle(db)                                      # any order on the second
+    frag_a = r1 + 'C' + ''.join(da)
+    frag_b = 'C' + ''.join(db) + r2
+    names, defs = [], ['#A=' + frag_a, '#B=' + frag_b]
+    # the edge between the two sharing fragments comes FIRST in the base graph: all ordinary descriptors of the shared
+    # atom are still there when the shared pair is matched
+    k = 0
+    inner = '[#B]'
+    for e in eb:
+        k += 1
+        inner += '([#E%d])' % k
+        defs.append('#E%d=[$]%s' % (k, e))
+    base = '[#A](' + inner + ')' if ea else '[#A]' + inner
+    for e in ea:
+        k += 1
+        base += '[#E%d]' % k
+        defs.append('#E%d=[$]%s' % (k, e))
+    # reference molecule (heavy atoms)
+    ref = nx.Graph()
+
+    def chain(atoms, attach):
+        prev = attach
+        for el in atoms:
+            n = len(ref)
+            ref.add_node(n, element=el)
+            if prev is not None:
+                ref.add_edge(prev, n)
+            prev = n
+        return prev
+    ref.add_node(0, element='C')                         # the shared atom
+    chain(list(reversed(chains[r1])), 0)
+    chain(chains[r2], 0)
+    for e in ea + eb:
+        chain(['Cl'] if e == 'Cl' else chains.get(e, [e]), 0)
+    return {'kind': 'share-extra', 's': '{' + base + '}.{' + ','.join(defs) + '}', 'all_atom': True, 'legacy': True, 'nshared': 1,
+            'ref': {'n': [[n, d['element']] for n, d in ref.nodes(data=True)], 'e': [list(e) for e in ref.edges]}}
+
+
+def share_extra_oracle(ctx, case, steps, ctor_err):
+    if steps is None or steps[-1]['result'] != 'ok':
+        ctx.fail(suites.slim(case), 'description with a shared atom that also carries ordinary descriptors is rejected')
+        return
+    fine = steps[-1]['fine_graph']
+    heavy = fine.subgraph([n for n, d in fine.nodes(data=True) if d.get('element') != 'H'])
+    ref = nx.Graph()
+    for n, el in case['ref']['n']:
+        ref.add_node(n, element=el)
+    ref.add_edges_from(case['ref']['e'])
+    if heavy.number_of_nodes() != ref.number_of_nodes():
+        ctx.fail(suites.slim(case), f'{heavy.number_of_nodes()} heavy atoms, the molecule has {ref.number_of_nodes()} (one shared pair)')
+    elif not nx.is_isomorphic(heavy, ref, node_match=lambda a, b: a.get('element') == b.get('element')):
+        ctx.fail(suites.slim(case), 'the description with a shared atom carrying ordinary descriptors does not resolve to the molecule')
+    elif not any(len(d.get('fragid', [])) > 1 for _, d in fine.nodes(data=True)):
+        ctx.fail(suites.slim(case), 'no atom belongs to two coarse nodes although an atom is shared')
+
+
 def classify(case):
     """Q2: a shared pair whose atom is aromatic (the hydrogen count of the kept copy ignores the bonds it inherits)"""
     if any(k.startswith('aromatic') for k in case.get('shared_kinds', [])):
@@ -146,6 +218,10 @@ def run(ctx):
     for _ in range(ctx.budget(60, 1000)):
         suites.run_resolve_case(ctx, 'nonlegacy-share', nonlegacy_case(rng_n), oracle=nonlegacy_oracle)
     ctx.feature('nonlegacy-share')
+    rng_e = ctx.rng('share-extra')
+    for _ in range(ctx.budget(40, 600)):
+        suites.run_resolve_case(ctx, 'share-extra', share_extra_case(rng_e), oracle=share_extra_oracle)
+    ctx.feature('shared-atom-with-ordinary-descriptors')
     rng = ctx.rng('share')
     for i in range(ctx.budget(400, 8000)):
         if ctx.out_of_time():
@@ -171,13 +247,16 @@ def run(ctx):
 def corpus_case(ctx, payload):
     case = payload.get('case', {})
     if isinstance(case, dict) and 's' in case and case.get('kind') != 'compat':
-        suites.run_resolve_case(ctx, 'corpus', case, oracle=oracle)
+        suites.run_resolve_case(ctx, 'corpus', case, oracle=share_extra_oracle if case.get('kind') == 'share-extra' else oracle)
 
 
 def replay(payload):
     import check
     ctx = check.Ctx(PROP, 'quick', 0)
-    suites.run_resolve_case(ctx, 'replay', payload['case'], oracle=oracle, compare=False)
+    kind = payload['case'].get('kind')
+    orc = share_extra_oracle if kind == 'share-extra' else nonlegacy_oracle if kind == 'nonlegacy-share' else \
+        hier_oracle if kind == 'hier' else oracle
+    suites.run_resolve_case(ctx, 'replay', payload['case'], oracle=orc, compare=False)
     for c, what, _ in ctx.failures:
         print('FAILS:', what)
     print('input:', payload['case'].get('s'))
